@@ -142,6 +142,14 @@ def render(e, args_text: str | None = None) -> str:
         return f'({render(e["e"], args_text)} instance of {e["t"]})'
     if k == 'map':
         return f'({render(e["s"], args_text)} ! {render(e["r"], args_text)})'
+    if k == 'maplit':
+        return 'map { ' + ', '.join(f'{key}: {render(v, args_text)}' for key, v in zip(e['ks'], e['vs'])) + ' }'
+    if k == 'blit':
+        return 'true()' if e['v'] else 'false()'
+    if k == 'nanlit':
+        return 'xs:double("NaN")'
+    if k == 'nzlit':
+        return '-0e0'
     if k == 'some':
         return f'(some ${e["v"]} in {render(e["s"], args_text)} satisfies {render(e["c"], args_text)})'
     if k == 'mapk':
@@ -226,7 +234,9 @@ def project_item(x):
     if isinstance(x, Decimal):
         return ('c', int(x)) if x == int(x) else ('other', repr(x))
     if isinstance(x, float):
-        if x != x or x in (float('inf'), float('-inf')) or x != int(x):
+        if x != x:
+            return ('nan', True)
+        if x in (float('inf'), float('-inf')) or x != int(x):
             return ('other', repr(x))
         return ('d', int(x))
     if isinstance(x, str):
@@ -529,6 +539,9 @@ def start_tlc(chk: core.Check, tier: dict, parts) -> dict:
             wd = os.path.join(chk.scratch, 'mixed-' + name)
             jobs[('mixed', name, 'laws')] = ('HOF', tla.cfg_text(consts, spec='SpecMixed', invariants=['LawsMixed']), wd,
                                              os.path.join(wd, 'g.dot'))
+            wd = os.path.join(chk.scratch, 'ties-' + name)
+            jobs[('ties', name, 'laws')] = ('HOF', tla.cfg_text(consts, spec='SpecTies', invariants=['LawsTies']), wd,
+                                            os.path.join(wd, 'g.dot'))
 
     def one(item):
         key, (module, cfg, wd, dot) = item
@@ -612,7 +625,8 @@ def run_closures(chk: core.Check, name: str, consts: dict, tlc: dict) -> None:
 
 HOF_NAME = {'ForEachA': 'for-each', 'FilterA': 'filter', 'FoldLeftA': 'fold-left', 'FoldRightA': 'fold-right',
             'PairA': 'for-each-pair', 'ApplyA': 'apply', 'SortA': 'sort'}
-FN_CLASS = {'fun': 'inline', 'let': 'closure', 'ref': 'named', 'call': 'partial', 'scall': 'partial'}
+FN_CLASS = {'fun': 'inline', 'let': 'closure', 'ref': 'named', 'call': 'partial', 'scall': 'partial',
+            'arr': 'array', 'maplit': 'map'}
 
 
 def seq_text(items) -> str:
@@ -637,6 +651,23 @@ def hof_expr(action: str, args: tuple, src_text: str, src_items, ftxt: str, zero
     raise tla.MachineryError(action)
 
 
+def hof_parts(action: str, args: tuple, src_text: str, src_items, ftxt: str, zeros: dict):
+    """(function name, argument texts) of the same call, for the renderings that use the higher-order function
+    itself as a function item: name#n(args), apply(name#n, [args])"""
+    name = HOF_NAME[action]
+    if action in ('ForEachA', 'FilterA'):
+        return name, [src_text, ftxt]
+    if action in ('FoldLeftA', 'FoldRightA'):
+        return name, [src_text, render(zeros[args[0]]), ftxt]
+    if action == 'PairA':
+        return name, [src_text, seq_text(args[0]), ftxt]
+    if action == 'ApplyA':
+        return name, [ftxt, '[' + ', '.join(str(n) if n >= 0 else f'({n})' for n in src_items) + ']']
+    if action == 'SortA':
+        return (name, [src_text]) if args[0] == 'none' else (name, [src_text, '()', ftxt])
+    raise tla.MachineryError(action)
+
+
 def hof_python_api(action: str, args: tuple, src_items, ftext: str | None, zeros: dict):
     """parser.get_function(hof, n)(python sequence, ..., function object)"""
     import elementpath
@@ -646,6 +677,9 @@ def hof_python_api(action: str, args: tuple, src_items, ftext: str | None, zeros
     def body():
         ctx = XPathContext(root=None, item=1)
         fobj = elementpath.select(None, ftext, parser=P, item=1) if ftext is not None else None
+        if ftext is not None and ftext.lstrip().startswith(('[', 'map')):
+            # select() hands an array out as the list of its members: take the item from the parsed token
+            fobj = P().parse(ftext).evaluate(XPathContext(root=None, item=1))
         if isinstance(fobj, list):
             fobj, = fobj
         name = HOF_NAME[action]
@@ -678,8 +712,8 @@ def hof_worker(job):
         ftext = render(entry['e']) if entry else None
         exp = abstract(dst)
         src_items = [x['i'] for x in src]
-        versions = ('3.1',) if action in ('ApplyA', 'SortA') else ('3.0', '3.1')
-        for nested, stext in src_texts:
+        for nested, stext, src31, as_item in src_texts:
+            versions = ('3.1',) if (src31 or action in ('ApplyA', 'SortA') or (entry and entry.get('v31'))) else ('3.0', '3.1')
             if nested:
                 ok = _nested_ok.get(stext)
                 if ok is None:
@@ -700,9 +734,33 @@ def hof_worker(job):
             if not nested and action != 'ApplyA':
                 runs.append(('python', '3.1', hof_expr(action, args, stext, src_items, ftext, zeros),
                              hof_python_api(action, args, src_items, ftext, zeros)))
+            if as_item:
+                # the higher-order function ITSELF as a function item (name#n, and through fn:apply), with $f bound
+                # once, already called once before ("warm": a named reference keeps its last arguments), used twice
+                fx = ftext is not None
+                hname, hargs = hof_parts(action, args, stext, src_items, '$f' if fx else None, zeros)
+                hargs = [a for a in hargs if a is not None]
+                n_args = len(hargs)
+                warm = ''
+                if fx:
+                    warm = f'$f := {ftext}, $w := $f(' + ', '.join(str(q + 1) for q in range(entry['arity'])) + '), '
+                call = f'$h({", ".join(hargs)})'
+                for v in versions:
+                    if action == 'ApplyA' and v == '3.0':
+                        continue
+                    t = f'let {warm}$h := {hname}#{n_args} return ({call}, "{SEP}", {call})'
+                    runs.append(('item-warm2', v, t, run_xpath(t, v)))
+                t = f'let {warm}$z := 0 return apply({hname}#{n_args}, [{", ".join(hargs)}])'
+                runs.append(('apply-item', '3.1', t, run_xpath(t, '3.1')))
+                if action == 'ApplyA' and fx:
+                    t = f'let $f := {ftext} return $f(' + ', '.join(str(n) if n >= 0 else f'({n})' for n in src_items) + ')'
+                    runs.append(('dyncall', '3.1', t, run_xpath(t, '3.1')))
             for style, v, text, out in runs:
                 n_eval += 1
                 obs = project(out[1]) if out[0] == 'ok' else None
+                if style == 'item-warm2' and obs is not None:
+                    parts = split_results(obs)
+                    obs = parts[0] if (len(parts) == 2 and parts[0] == parts[1]) else obs
                 if obs != exp:
                     root = entry['e']['k'] if entry else 'none'
                     feat = dict(part='hof', hof=HOF_NAME[action], fn=fname, fn_class=FN_CLASS.get(root, 'none'),
@@ -741,6 +799,7 @@ def run_hof(chk: core.Check, name: str, consts: dict, tlc: dict) -> None:
     out = g.out()
     # nested spelling of non-initial states: the chain of calls that produced them
     nested: dict[int, str] = {}
+    nested31: set[int] = set()          # the chain uses a 3.1-only construct (sort, map / array constructor)
     seen = set(g.init)
     q = deque(sorted(g.init))
     while q:
@@ -753,14 +812,19 @@ def run_hof(chk: core.Check, name: str, consts: dict, tlc: dict) -> None:
             if d not in seen and a != 'ApplyA':
                 seen.add(d)
                 nested[d] = hof_call_text(a, args, base, catalog, zeros)
+                ent = catalog.get(args[-1])
+                if s in nested31 or a == 'SortA' or (ent and ent.get('v31')):
+                    nested31.add(d)
                 q.append(d)
     jobs = []
     distinct = set()
+    init = set(g.init)
     for s, d, a, args in g.edges:
         src, dst = g.states[s]['acc'], g.states[d]['acc']
-        texts = [(False, seq_text([x['i'] for x in src]))]
-        if s in nested and s not in g.init:
-            texts.append((True, nested[s]))
+        # (nested?, text, 3.1 only?, also with the higher-order function as a function item?: initial sequences)
+        texts = [(False, seq_text([x['i'] for x in src]), False, s in init)]
+        if s in nested and s not in init:
+            texts.append((True, nested[s], s in nested31, False))
         jobs.append((src, texts, a, args, dst))
         if len(src) >= 1:
             distinct.add((a, args, src))      # non-trivial: the source sequence is not empty
@@ -787,17 +851,17 @@ def run_hof(chk: core.Check, name: str, consts: dict, tlc: dict) -> None:
 
 def mixed_item_text(it) -> str:
     (k, v), = it.items()
-    return {'i': lambda: str(v), 'c': lambda: f'{v}.0', 'd': lambda: f'{v}e0',
+    return {'i': lambda: str(v), 'c': lambda: f'{v}.0', 'd': lambda: f'{v}e0', 's': lambda: f'"{v}"',
             'b': lambda: 'true()' if v else 'false()'}[k]()
 
 
 def mixed_py(it):
     (k, v), = it.items()
-    return {'i': int, 'c': Decimal, 'd': float, 'b': bool}[k](v)
+    return {'i': int, 'c': Decimal, 'd': float, 'b': bool, 's': str}[k](v)
 
 
 def mixed_worker(job):
-    catalog, edges = job
+    part, catalog, edges = job
     import elementpath
     from elementpath import XPathContext
     fails, n_eval = [], 0
@@ -814,9 +878,9 @@ def mixed_worker(job):
             n_eval += 1
             obs = project(out[1]) if out[0] == 'ok' else None
             if obs != exp:
-                fails.append((dict(part='sortmixed', hof='sort', key=key, style=style, src_len=len(src),
+                fails.append((dict(part=part, hof='sort', key=key, style=style, src_len=len(src),
                                    outcome='value' if out[0] == 'ok' else f'{out[0]}:{out[1]}'),
-                              dict(part='sortmixed', text=text, parser='3.1', style=style), exp,
+                              dict(part=part, text=text, parser='3.1', style=style), exp,
                               obs if obs is not None else list(out)))
 
         def api():
@@ -828,35 +892,41 @@ def mixed_worker(job):
         n_eval += 1
         obs = project(out[1]) if out[0] == 'ok' else None
         if obs != exp:
-            fails.append((dict(part='sortmixed', hof='sort', key=key, style='python', src_len=len(src),
+            fails.append((dict(part=part, hof='sort', key=key, style='python', src_len=len(src),
                                outcome='value' if out[0] == 'ok' else f'{out[0]}:{out[1]}'),
-                          dict(part='sortmixed', text=f'get_function("sort", 3)({[mixed_py(x) for x in src]!r}, [], {ftext})',
+                          dict(part=part, text=f'get_function("sort", 3)({[mixed_py(x) for x in src]!r}, [], {ftext})',
                                parser='3.1', style='python-note'), exp, obs if obs is not None else list(out)))
     return n_eval, fails
 
 
-def run_mixed(chk: core.Check, name: str, consts: dict, tlc: dict) -> None:
+def run_mixed(chk: core.Check, name: str, consts: dict, tlc: dict, kind: str = 'mixed') -> None:
+    """kind 'mixed': HOF!SpecMixed (Python-equal items, separating keys); kind 'ties': HOF!SpecTies
+    (distinguishable items, EQUAL keys: NaN, -0/0, (), 1/1e0)"""
     # the spec orders its four key strings by a table (FnEval!StrRank): cross-check it with codepoint order
     if sorted(['true', '1', 'false', '0']) != ['0', '1', 'false', 'true']:
         raise tla.MachineryError('FnEval!StrRank disagrees with codepoint order')
-    dot = os.path.join(chk.scratch, 'mixed-' + name, 'g.dot')
-    r = tla.require_ok(tlc[('mixed', name, 'laws')], f'HOF.SpecMixed/{name}', min_distinct=50)
-    chk.model(f'HOF.SpecMixed/{name}', r)
+    spec, action, part = {'mixed': ('SpecMixed', 'SortMixedA', 'sortmixed'), 'ties': ('SpecTies', 'SortTiesA', 'sortties')}[kind]
+    dot = os.path.join(chk.scratch, kind + '-' + name, 'g.dot')
+    r = tla.require_ok(tlc[(kind, name, 'laws')], f'HOF.{spec}/{name}', min_distinct=50)
+    chk.model(f'HOF.{spec}/{name}', r)
     catalog = load_table(r.output, 'catalog')
     g = tla.load_dot(dot)
     os.remove(dot)
     jobs, distinct = [], set()
     for s_, d_, a, args in g.edges:
-        if a != 'SortMixedA':
-            raise tla.MachineryError(f'unexpected action {a} in SpecMixed')
+        if a != action:
+            raise tla.MachineryError(f'unexpected action {a} in {spec}')
         src, dst = g.states[s_]['acc'], g.states[d_]['acc']
         jobs.append((src, args[0], dst))
         # non-trivial: two items that are equal as Python values (1, 1.0, 1e0, true() / 0, false()) in the input
         pys = [mixed_py(x) for x in src]
-        if any(pys[i] == pys[j] and src[i] != src[j] for i in range(len(src)) for j in range(i)):
+        if kind == 'mixed' and any(pys[i] == pys[j] and src[i] != src[j] for i in range(len(src)) for j in range(i)):
+            distinct.add((src, args[0]))
+        # ties: two DIFFERENT non-numeric strings (their key is NaN / the constant) in the input
+        if kind == 'ties' and len({x['s'] for x in src if not x['s'].isdigit()}) >= 2:
             distinct.add((src, args[0]))
     if not distinct:
-        raise tla.MachineryError('SpecMixed: no input with two Python-equal, XPath-distinct items (vacuous)')
+        raise tla.MachineryError(f'{spec}: no non-trivial input (vacuous)')
     jobs.sort(key=lambda e: (e[1], tla.to_tla(e[0])))
     chk.add('transitions', len(jobs))
     chk.add('traces_validated_against_impl', len(jobs))
@@ -864,15 +934,15 @@ def run_mixed(chk: core.Check, name: str, consts: dict, tlc: dict) -> None:
     e = jobs[len(jobs) // 2]
     chk.sample(dict(expr=f'sort(({", ".join(mixed_item_text(x) for x in e[0])}), (), {render(catalog[e[1]]["e"])})',
                     expected=abstract(e[2])))
-    results = core.pool_map(mixed_worker, [(catalog, c) for c in core.chunked(jobs, 32)], procs=PROCS)
+    results = core.pool_map(mixed_worker, [(part, catalog, c) for c in core.chunked(jobs, 32)], procs=PROCS)
     n_fail = 0
     for n_eval, fails in results:
         chk.add('evaluations', n_eval)
-        chk.add('sortmixed_evaluations', n_eval)
+        chk.add(part + '_evaluations', n_eval)
         for feat, case, exp, obs in fails:
             n_fail += 1
             chk.fail(feat, case, exp, obs, what=(case['text'] or '')[:300])
-    print(f'  HOF.SpecMixed/{name}: states={r.distinct} edges={len(jobs)} failing_comparisons={n_fail} tlc={r.wall_s:.1f}s',
+    print(f'  HOF.{spec}/{name}: states={r.distinct} edges={len(jobs)} failing_comparisons={n_fail} tlc={r.wall_s:.1f}s',
           flush=True)
 
 
@@ -1045,6 +1115,7 @@ def run(chk: core.Check) -> None:
             run_hof(chk, name, consts, tlc)
         for name, consts in tier.get('mixed', []):
             run_mixed(chk, name, consts, tlc)
+            run_mixed(chk, name, consts, tlc, kind='ties')
         for name, consts in tier.get('coll', []):
             run_coll(chk, name, consts, tlc)
     chk.coverage['exhaustive'] = True
@@ -1057,5 +1128,9 @@ def run(chk: core.Check) -> None:
         'source sequence literal or as the nested call chain that produced it; non-trivial = non-empty source sequence.  '
         'SpecMixed: every sequence up to the bound over 1, 1.0, 1e0, true(), 0, false() x 5 key functions, fn:sort and '
         'array:sort; non-trivial = the input holds two items equal as Python values but different as XPath items.  '
+        'SpecTies: every sequence up to the bound over "x","y","9","10" x 5 keys that are EQUAL for distinguishable items '
+        '(NaN via number#1, constant NaN, -0e0/0e0, (), 1/1e0); non-trivial = two different non-numeric strings in the input.  '
+        'HOF edges are also run with the higher-order function itself as a function item (name#n twice in one expression, '
+        'apply(name#n, [...])) and $f bound once and already called; maps and arrays are in the function catalog.  '
         'SpecColl: every sequence up to the bound over "b","A","a","B" x 4 collations (absent/empty, codepoint, '
         'html-ascii-case-insensitive, unsupported) x 3 keys (absent, identity, string#1): sort, sort#n, array:sort, Python API.')
